@@ -22,6 +22,9 @@ func genC17Schemas(e *emitter, tier string) {
 		{"          - name\n", "          - vv\n"},
 		{"      default: \"TCP\"", "      default: \"UDP\""},
 		{"      default: \"TCP\"", ""},
+		{"      default: {}", "      default: {\"k\": \"v\"}"},
+		{"      default: [\"x\"]", "      default: [\"x\", \"y\"]"},
+		{"      default: [\"x\"]", "      default: {}"},
 		{"namedType: __untyped_atomic_", "namedType: __untyped_deduced_"},
 	}
 	n := 40
@@ -34,8 +37,12 @@ func genC17Schemas(e *emitter, tier string) {
 		if err1 != nil || err2 != nil {
 			return
 		}
-		eq := pa.Schema.Equals(&pb.Schema) && pb.Schema.Equals(&pa.Schema)
-		e.line(fmt.Sprintf("(c17.schemaeq %s %s %s)", sexpSchema(&pa.Schema), sexpSchema(&pb.Schema), sexpBool(eq)))
+		res := "panic"
+		func() {
+			defer func() { recover() }()
+			res = sexpBool(pa.Schema.Equals(&pb.Schema) && pb.Schema.Equals(&pa.Schema))
+		}()
+		e.line(fmt.Sprintf("(c17.schemaeq %s %s %s)", sexpSchema(&pa.Schema), sexpSchema(&pb.Schema), res))
 	}
 	for _, d := range docs {
 		emit(d, d)
